@@ -269,16 +269,17 @@ PROPS["C15"] = {
 PROPS["C16"] = {
     "level": "exploration",
     "technique": "reflection-driven value generation (rapid) for every NFS/MOUNT argument and result type with round-trip, prefix-rejection and differential (go-rpcgen rfc1813, generated from the RFC's .x file) oracles; generated and mutated byte strings through both decoders; hand-derived golden byte vectors; exhaustive dispatch check over procedure numbers with a recording stub behind the repository's registration tables and the real RPC server; native fuzzing of the decoders (thorough)",
-    "level_text": "Round trip: for each of 54 wire types a value is generated by reflection (every union arm incl. out-of-range discriminants, optional present/absent, lists of 0..3 elements, opaque/string lengths 0..67 and beyond the handle limit); its encoding must be a multiple of 4 bytes, decode+encode must reproduce the bytes, the rfc1813 codec must produce identical bytes for the field-wise copied value, and every strict prefix must be rejected. Bytes: arbitrary and mutated byte strings must be accepted/rejected alike by both decoders and re-encode identically. Golden: 24 messages whose bytes are built with an independent 20-line big-endian encoder from the RFC 1813/4506 layouts must be produced exactly and decode back. Dispatch: through rfc1057.Server over net.Pipe with the repository's *_regs tables and a recording handler, each of the 22 NFS and 6 MOUNT procedure numbers must reach the method RFC 1813 assigns to it, numbers 22..39 / 6..11 and other programs/versions must be refused. Thorough adds coverage-guided fuzzing of [type | bytes] with the differential oracle.",
+    "level_text": "Round trip: for each of 54 wire types a value is generated by reflection (every union arm incl. out-of-range discriminants, optional present/absent, lists of 0..3 elements, opaque/string lengths 0..67 and beyond the handle limit); its encoding must be a multiple of 4 bytes, decode+encode must reproduce the bytes, the rfc1813 codec must produce identical bytes for the field-wise copied value, and every strict prefix must be rejected. Bytes: arbitrary and mutated byte strings must be accepted/rejected alike by both decoders and re-encode identically. Golden: 24 messages whose bytes are built with an independent 20-line big-endian encoder from the RFC 1813/4506 layouts must be produced exactly and decode back. Dispatch: through rfc1057.Server over net.Pipe with the repository's *_regs tables and a recording handler, each of the 22 NFS and 6 MOUNT procedure numbers must reach the method RFC 1813 assigns to it, numbers 22..39 / 6..11 and other programs/versions must be refused. Thorough adds coverage-guided fuzzing of [type | bytes] with the differential oracle. Truncated requests at the dispatch layer: for generated argument values of every procedure that takes arguments, every strict prefix of the encoding is handed to the repository's dispatch table in front of a recording stub; the call must end in an error and the procedure must not have run.",
     "level_note": "The repository's nfs_xdr.go is today textually the output of the same generator as rfc1813, so the differential oracle detects any edit of the repository's copy but shares generator bugs; golden vectors and the dispatch table are the generator-independent part. cmd/*/main.go itself (portmapper registration) cannot run offline; the harness registers the same tables the same way.",
     "rule": ("unit = one generated value / byte string / golden vector / procedure number. Non-trivial: a value whose encoding succeeded and passed through all four oracles (distinct by FNV hash of type and bytes); every golden vector; every assigned procedure number. Dispatch and golden units are exhaustive over their finite tables."),
     "assumptions": COMMON_ASSUMPTIONS,
-    "required_classes": ["golden_vectors", "procedure_numbers_checked", "type_WRITE3args", "type_READDIRPLUS3res", "type_Mountres3"],
+    "required_classes": ["truncated_requests_offered_to_the_dispatch_table", "golden_vectors", "procedure_numbers_checked", "type_WRITE3args", "type_READDIRPLUS3res", "type_Mountres3"],
     "units": [
         {"test": "^TestC16RoundTrip$", "quick": {"checks": 6000, "shards": 4}, "thorough": {"checks": 100000, "shards": 8}},
         {"test": "^TestC16Bytes$", "quick": {"checks": 20000, "shards": 4}, "thorough": {"checks": 250000, "shards": 8}},
         {"test": "^TestC16Golden$", "norapid": True, "quick": {"shards": 1}},
         {"test": "^TestC16Dispatch$", "norapid": True, "quick": {"shards": 1}},
+        {"test": "^TestC16Truncated$", "quick": {"checks": 1500, "shards": 4}, "thorough": {"checks": 40000, "shards": 8}},
         {"test": "^FuzzC16Decode$", "fuzz": True, "quick": {"shards": 1}, "thorough": {"shards": 1, "fuzztime": 300, "procs": 16, "timeout": 900}},
     ],
 }
